@@ -1,3 +1,217 @@
-import MgModel.C05.TsPool
-namespace MgProof.C05
-end MgProof.C05
+import MgProof.C05.Lemmas
+import MgModel.C05.SowrPool
+/-! Invariant of the sowr-pool model (`MgModel.C05.Sowr.step`) for histories that are legal so
+far (`illegal = 0`) and respect the pool's contract (`misuse = 0`: one allocating thread, one
+freeing thread). Blocks are numbered by allocation serial; serial `σ` lives at position
+`σ % cap`; everything allocated before the release frontier is free again. -/
+namespace MgProof.C05.Sowr
+open MgModel.Conc MgModel.C05 MgModel.C05.Sowr
+
+/-! ## modular arithmetic -/
+
+/-- two numbers less than `C` apart are congruent only if equal -/
+theorem mod_window {C x y : Nat} (h1 : x ≤ y) (h2 : y < x + C) (h : x % C = y % C) : x = y := by
+  have h0 : (y - x) % C = 0 := Nat.sub_mod_eq_zero_of_mod_eq h.symm
+  have : (y - x) % C = y - x := Nat.mod_eq_of_lt (by omega)
+  omega
+
+theorem pow_dvd_u32 {k : Nat} (hk : k ≤ 32) : 2 ^ k ∣ u32 := by
+  have : u32 = 2 ^ 32 := by decide
+  rw [this]; exact Nat.pow_dvd_pow 2 hk
+
+theorem u32_pred_mod {k : Nat} (hk : k ≤ 32) : (u32 - 1) % 2 ^ k = 2 ^ k - 1 := by
+  obtain ⟨q, hq⟩ := pow_dvd_u32 hk
+  have hpos : 1 ≤ 2 ^ k := Nat.one_le_two_pow
+  cases q with
+  | zero => simp [u32] at hq
+  | succ q =>
+    rw [Nat.mul_succ] at hq
+    have : u32 - 1 = (2 ^ k - 1) + 2 ^ k * q := by omega
+    rw [this, Nat.add_mul_mod_self_left]
+    exact Nat.mod_eq_of_lt (by omega)
+
+/-- advancing the free-running 32-bit index keeps it congruent to the allocation count -/
+theorem idx_succ_mod {k a N : Nat} (hk : k ≤ 32) (h : a % 2 ^ k = N % 2 ^ k) :
+    ((a + 1) % u32) % 2 ^ k = (N + 1) % 2 ^ k := by
+  rw [Nat.mod_mod_of_dvd _ (pow_dvd_u32 hk), Nat.add_mod, h, ← Nat.add_mod]
+
+/-- what the allocator computes from `free_idx`: the position before the returned frontier -/
+theorem cached_of_free_idx {k f r : Nat} (hk : k ≤ 32)
+    (h : (r = 0 ∧ f = 0) ∨ (1 ≤ r ∧ 1 ≤ f ∧ f ≤ 2 ^ k ∧ f - 1 = (r - 1) % 2 ^ k)) :
+    ringIdx ((f + u32 - 1) % u32) (2 ^ k) = (r + 2 ^ k - 1) % 2 ^ k := by
+  have hpos : 1 ≤ 2 ^ k := Nat.one_le_two_pow
+  have hle : 2 ^ k ≤ u32 := Nat.le_of_dvd (by decide) (pow_dvd_u32 hk)
+  rw [ringIdx_eq_mod]
+  rcases h with ⟨hr, hf⟩ | ⟨hr, hf1, hf2, hf3⟩
+  · subst hr; subst hf
+    have h1 : (0 + u32 - 1) % u32 = u32 - 1 := Nat.mod_eq_of_lt (by simp [u32])
+    rw [h1, u32_pred_mod hk]
+    have : 0 + 2 ^ k - 1 = 2 ^ k - 1 := by omega
+    rw [this]; exact (Nat.mod_eq_of_lt (by omega)).symm
+  · have h1 : f + u32 - 1 = (f - 1) + u32 := by omega
+    have h2 : r + 2 ^ k - 1 = (r - 1) + 2 ^ k := by omega
+    rw [h1, Nat.add_mod_right, Nat.mod_eq_of_lt (by omega : f - 1 < u32), h2, Nat.add_mod_right,
+      Nat.mod_eq_of_lt (by omega : f - 1 < 2 ^ k), hf3]
+
+/-! ## the invariant -/
+
+/-- serial numbers below the frontier have been released by the freeing thread -/
+def frontier (s : St) : Nat :=
+  match s.pc s.freeTid with
+  | .sSt _ sb => sb + 1
+  | _ => s.nRet
+
+structure Core (k rc : Nat) (s : St) : Prop where
+  cap : s.cap = 2 ^ k ∧ k ≤ 32
+  dbl : s.g.double = 0
+  spn : s.spuriousNull = 0
+  pos : s.allocIdx % s.cap = s.g.nextSerial % s.cap
+  own : ∀ b, s.g.owned b = true →
+          b < s.cap ∧ s.g.serial b < s.g.nextSerial ∧ s.g.serial b % s.cap = b ∧ frontier s ≤ s.g.serial b
+  fr  : ∀ t b sb, s.pc t = .sSt b sb →
+          t = s.freeTid ∧ b < s.cap ∧ sb % s.cap = b ∧ s.nRet ≤ sb ∧ sb < s.g.nextSerial
+  al  : ∀ t, s.pc t = .sLd → t = s.allocTid
+  rc  : rc ≤ s.nRet ∧ s.cachedFree = (rc + s.cap - 1) % s.cap ∧ s.g.nextSerial ≤ rc + s.cap - 1
+  rn  : s.nRet ≤ s.g.nextSerial
+  fi  : (s.nRet = 0 ∧ s.freeIdx = 0) ∨
+        (1 ≤ s.nRet ∧ 1 ≤ s.freeIdx ∧ s.freeIdx ≤ s.cap ∧ s.freeIdx - 1 = (s.nRet - 1) % s.cap)
+
+def Legal (s : St) : Prop := s.g.illegal = 0 ∧ s.misuse = 0
+
+def Inv (k : Nat) (s : St) : Prop := Legal s → ∃ rc, Core k rc s
+
+theorem nextPc_cases (rest : List Op) : nextPc rest = .done ∨ nextPc rest = .idle := by
+  unfold nextPc; split <;> simp
+
+theorem frontier_le {k rc : Nat} {s : St} (c : Core k rc s) : frontier s ≤ s.g.nextSerial := by
+  unfold frontier
+  split
+  · rename_i b sb h
+    have := (c.fr _ b sb h).2.2.2.2; omega
+  · exact c.rn
+
+theorem nret_le_frontier {k rc : Nat} {s : St} (c : Core k rc s) : s.nRet ≤ frontier s := by
+  unfold frontier
+  split
+  · rename_i b sb h
+    have := (c.fr _ b sb h).2.2.2.1; omega
+  · exact Nat.le_refl _
+
+/-- the block at the allocation position is not owned -/
+theorem next_not_owned {k rc : Nat} {s : St} (c : Core k rc s) :
+    s.g.owned (s.g.nextSerial % s.cap) = false := by
+  cases h : s.g.owned (s.g.nextSerial % s.cap) with
+  | false => rfl
+  | true =>
+    exfalso
+    obtain ⟨_, h2, h3, h4⟩ := c.own _ h
+    have h5 := nret_le_frontier c
+    obtain ⟨r1, _, r3⟩ := c.rc
+    have hpos : 1 ≤ s.cap := by rw [c.cap.1]; exact Nat.one_le_two_pow
+    have := mod_window (C := s.cap) (Nat.le_of_lt h2) (by omega) h3
+    omega
+
+def notSt : Pc → Prop
+  | .sSt _ _ => False
+  | _ => True
+
+/-- moving a thread between program counters that are not inside `free` keeps the frontier -/
+theorem frontier_upd {s s' : St} {t : Nat} {q : Pc} (h1 : s'.pc = upd s.pc t q) (h2 : s'.freeTid = s.freeTid)
+    (h3 : s'.nRet = s.nRet) (hold : notSt (s.pc t)) (hnew : notSt q) : frontier s' = frontier s := by
+  unfold frontier
+  rw [h1, h2, h3]
+  by_cases e : s.freeTid = t
+  · subst e
+    simp only [upd_same]
+    cases q <;> simp [notSt] at hnew <;> cases hp : s.pc s.freeTid <;> simp [hp, notSt] at hold ⊢
+  · simp [upd, e]
+
+/-- a step that changes only the program counter of a thread outside `free` (and ghost lists) -/
+theorem Core.frame {k rc : Nat} {s s' : St} {t : Nat} {q : Pc} (c : Core k rc s)
+    (e1 : s'.cap = s.cap) (e2 : s'.g.double = s.g.double) (e3 : s'.spuriousNull = s.spuriousNull)
+    (e4 : s'.allocIdx = s.allocIdx) (e5 : s'.g.nextSerial = s.g.nextSerial) (e6 : s'.g.owned = s.g.owned)
+    (e7 : s'.g.serial = s.g.serial) (e8 : s'.pc = upd s.pc t q) (e9 : s'.freeTid = s.freeTid)
+    (e10 : s'.allocTid = s.allocTid) (e11 : s'.nRet = s.nRet) (e12 : s'.cachedFree = s.cachedFree)
+    (e13 : s'.freeIdx = s.freeIdx) (hold : notSt (s.pc t)) (hnew : notSt q)
+    (hld : q = .sLd → t = s.allocTid) : Core k rc s' := by
+  have hf := frontier_upd e8 e9 e11 hold hnew
+  obtain ⟨c1, c2, c3, c4, c5, c6, c7, c8, c9, c10⟩ := c
+  constructor
+  · rw [e1]; exact c1
+  · rw [e2]; exact c2
+  · rw [e3]; exact c3
+  · rw [e1, e4, e5]; exact c4
+  · intro b hb; rw [e6] at hb; rw [e1, e7, e5, hf]; exact c5 b hb
+  · intro t' b sb h
+    rw [e8] at h
+    by_cases e : t' = t
+    · subst e; simp only [upd_same] at h; subst h; simp [notSt] at hnew
+    · simp only [upd, e, if_false] at h
+      rw [e9, e1, e11, e5]; exact c6 t' b sb h
+  · intro t' h
+    rw [e8] at h
+    by_cases e : t' = t
+    · subst e; simp only [upd_same] at h; rw [e10]; exact hld h
+    · simp only [upd, e, if_false] at h; rw [e10]; exact c7 t' h
+  · rw [e11, e12, e1, e5]; exact c8
+  · rw [e11, e5]; exact c9
+  · rw [e11, e13, e1]; exact c10
+/-- a successful allocation: the block at position `nextSerial % cap` is handed out -/
+theorem Core.alloc {k rc : Nat} {s s' : St} {t : Nat} {q : Pc} (c : Core k rc s)
+    (hne : ringIdx s.allocIdx s.cap ≠ s.cachedFree)
+    (e1 : s'.cap = s.cap)
+    (e2 : s'.g.double = if s.g.owned (ringIdx s.allocIdx s.cap) then s.g.double + 1 else s.g.double)
+    (e3 : s'.spuriousNull = s.spuriousNull)
+    (e4 : s'.allocIdx = (s.allocIdx + 1) % u32) (e5 : s'.g.nextSerial = s.g.nextSerial + 1)
+    (e6 : s'.g.owned = upd s.g.owned (ringIdx s.allocIdx s.cap) true)
+    (e7 : s'.g.serial = upd s.g.serial (ringIdx s.allocIdx s.cap) s.g.nextSerial)
+    (e8 : s'.pc = upd s.pc t q) (e9 : s'.freeTid = s.freeTid)
+    (e10 : s'.allocTid = s.allocTid) (e11 : s'.nRet = s.nRet) (e12 : s'.cachedFree = s.cachedFree)
+    (e13 : s'.freeIdx = s.freeIdx) (hold : notSt (s.pc t)) (hnew : q = .done ∨ q = .idle) :
+    Core k rc s' := by
+  have hnew' : notSt q := by rcases hnew with h | h <;> subst h <;> trivial
+  have hf := frontier_upd e8 e9 e11 hold hnew'
+  have hfl := frontier_le c
+  have hno := next_not_owned c
+  obtain ⟨⟨hcap, hk⟩, c2, c3, c4, c5, c6, c7, c8, c9, c10⟩ := c
+  have hp : ringIdx s.allocIdx s.cap = s.g.nextSerial % s.cap := by
+    rw [hcap, ringIdx_eq_mod, ← hcap]; exact c4
+  rw [hp] at hne e2 e6 e7
+  have hpos : 1 ≤ s.cap := by rw [hcap]; exact Nat.one_le_two_pow
+  constructor
+  · rw [e1]; exact ⟨hcap, hk⟩
+  · rw [e2, hno]; simpa using c2
+  · rw [e3]; exact c3
+  · rw [e1, e4, e5, hcap]; rw [hcap] at c4; exact idx_succ_mod hk c4
+  · intro b hb
+    rw [e6] at hb
+    rw [e1, e7, e5, hf]
+    by_cases e : b = s.g.nextSerial % s.cap
+    · subst e
+      simp only [upd_same]
+      exact ⟨Nat.mod_lt _ (by omega), by omega, by first | rfl | trivial, hfl⟩
+    · simp only [upd, e, if_false] at hb ⊢
+      obtain ⟨h1, h2, h3, h4⟩ := c5 b hb
+      exact ⟨h1, by omega, h3, h4⟩
+  · intro t' b sb h
+    rw [e8] at h
+    by_cases e : t' = t
+    · subst e; simp only [upd_same] at h; subst h; simp [notSt] at hnew'
+    · simp only [upd, e, if_false] at h
+      rw [e9, e1, e11, e5]
+      obtain ⟨h1, h2, h3, h4, h5⟩ := c6 t' b sb h
+      exact ⟨h1, h2, h3, h4, by omega⟩
+  · intro t' h
+    rw [e8] at h
+    by_cases e : t' = t
+    · subst e; simp only [upd_same] at h; rcases hnew with h' | h' <;> (rw [h'] at h; cases h)
+    · simp only [upd, e, if_false] at h; rw [e10]; exact c7 t' h
+  · rw [e11, e12, e1, e5]
+    obtain ⟨r1, r2, r3⟩ := c8
+    refine ⟨r1, r2, ?_⟩
+    have : s.g.nextSerial ≠ rc + s.cap - 1 := by
+      intro e; apply hne; rw [r2, e]
+    omega
+  · rw [e11, e5]; omega
+  · rw [e11, e13, e1]; exact c10
+end MgProof.C05.Sowr
